@@ -125,7 +125,16 @@ func (a *verifJoiner) Do(e *Event) ActionResult {
 		}
 		return ActionDiscard
 	}
-	switch vf.Choose("line-kind", 3) {
+	kind := 2
+	if vf.Param("script", 0) == 1 {
+		// scripted: the first record starts a run, the others are single lines (the schedule is what is explored)
+		if e.Offset == 1 {
+			kind = 0
+		}
+	} else {
+		kind = vf.Choose("line-kind", 3)
+	}
+	switch kind {
 	case 0: // start of a run
 		if a.held != nil {
 			a.flush()
@@ -182,7 +191,10 @@ func VerifH_C01_pipeline() {
 	nproc := 1 + vf.Choose("processors", vf.Param("PROCS", 2))
 	workers := 1 + vf.Choose("workers", vf.Param("W", 1))
 	batchCount := vf.Param("BSMIN", 1) + vf.Choose("batch-size", vf.Param("BS", 2)+1-vf.Param("BSMIN", 1))
-	lowMem := vf.Choose("low-memory-pool", 2) == 1
+	lowMem := vf.Param("pool", 2) == 1
+	if vf.Param("pool", 2) == 2 {
+		lowMem = vf.Choose("low-memory-pool", 2) == 1
+	}
 	withJoin := vf.Param("join", 0) == 1
 	twin := vf.Param("twin", 0) == 1
 
@@ -294,6 +306,11 @@ func VerifH_C01_pipeline() {
 					w.got-- // the refused event went straight back to the pool
 				})
 				vf.Reach("refused-by-input")
+			}
+			// the source may go quiet for longer than the event time-out between two records
+			if vf.Param("pauses", 0) == 1 && i < K && (vf.Param("script", 0) == 1 && i == 1 || vf.Param("script", 0) == 0 && vf.Choose("source-goes-quiet", 2) == 1) {
+				time.Sleep(verifEventTimeout + 100*time.Millisecond)
+				vf.Reach("quiet-period")
 			}
 		}
 		readerDone = true
